@@ -276,9 +276,11 @@ impl UnverifiedBiscuit {
             .map_err(error::Token::Format)?
         };
 
-        // we have to add the entire list of public keys here because
-        // they are used to validate 3rd party tokens
-        block.symbols.public_keys = self.symbols.public_keys.clone();
+        // first-party blocks reference the token's public key table; a
+        // third-party block keeps the table it declares itself
+        if block.external_key.is_none() {
+            block.symbols.public_keys = self.symbols.public_keys.clone();
+        }
         Ok(block)
     }
 
@@ -344,17 +346,16 @@ impl UnverifiedBiscuit {
             signature,
         };
 
-        let mut symbols = self.symbols.clone();
+        let symbols = self.symbols.clone();
         let mut blocks = self.blocks.clone();
 
         let container =
             self.container
                 .append_serialized(&next_keypair, payload, Some(external_signature))?;
 
-        let token_block = proto_block_to_token_block(&block, Some(external_key)).unwrap();
-        for key in &token_block.public_keys.keys {
-            symbols.public_keys.insert_fallible(key)?;
-        }
+        // a third-party block has its own symbol and public key tables: it is
+        // only validated here, the token's tables are left untouched
+        proto_block_to_token_block(&block, Some(external_key))?;
 
         blocks.push(block);
 
